@@ -1,4 +1,4 @@
-from typing import Dict, List
+from typing import Dict, List, Set
 
 from excel2pycl.src.cell import Cell
 
@@ -11,6 +11,8 @@ class Context:
     def __init__(self):
         self._cell_translations: Dict[str, str] = {}
         self._sub_cell_translations: Dict[str, List] = {}
+        # uids of the formula cells whose translation has started and is not finished yet (to detect cycles)
+        self.cells_in_progress: Set[str] = set()
         self._titles: Dict[str, int] = {}
         self._sheets_size: List[Dict[str, int]] = []
 
